@@ -283,7 +283,9 @@ pub fn emit_forced(pp: &PublicParameters, seed: u64, lines: &[String]) -> Vec<St
         let res = std::panic::catch_unwind(std::panic::AssertUnwindSafe(|| c.prover.prove(&mut rng, &bad)));
         dusk_plonk::verif::set_force_prove(false);
         if let Ok(Ok((proof, pis))) = res {
-            let tag = if refused { "expect-reject:forced-proof" } else { "any:forced-but-satisfied" };
+            // every instance sent here violates its circuit (the generator constructs them so): the verifier must reject
+            // whether or not the prover noticed
+            let tag = if refused { "expect-reject:forced-proof" } else { "expect-reject:violating-instance-prover-did-not-refuse" };
             out.push(vline(3, &x, &c.verifier.to_bytes(), &pis, &proof.to_bytes(), tag));
         }
     }
